@@ -15,7 +15,7 @@ CLAIMED = {
          "release profile so that wraps are silent (checked profile in a second phase); Err results are always acceptable; ranges per DESIGN appendix B",
          "DESIGN.md section 3 C02"),
  "C03": ("exploration", "runtime monitor: brute-force reference selector written against the statement + store event log, over an exhaustive query grid on sampled small stores and random large stores",
-         "Every combination of address / reference (own, foreign, dangling) / min_amount per class / single-many / input-collateral is run with the real tx3_resolver::inputs::resolve against sampled stores of 0..4 UTxOs, random queries against stores of up to 200 UTxOs with amounts up to 2^62, and a 'tight' phase (1..50 candidates at the queried address among up to 80 others, threshold = exact total of the candidates or the one dominating candidate, so that losing any candidate in narrowing, window, selection or excess trimming turns a resolvable query into a failure); the bound set is checked for soundness against every stated constraint and, when the candidate set has <= 50 members and contains a covering UTxO / total, for completeness. The store's event log shows which narrowing and fetch paths ran. Held = no unsound binding and no missed match.",
+         "Every combination of address / reference (own, foreign, dangling) / min_amount per class / single-many / input-collateral is run with the real tx3_resolver::inputs::resolve against sampled stores of 0..4 UTxOs, random queries against stores of up to 200 UTxOs with amounts up to 2^62, and a 'tight' phase (1..50 candidates at the queried address among up to 80 others, threshold = exact total of the candidates or the one dominating candidate, so that losing any candidate in narrowing, window, selection or excess trimming turns a resolvable query into a failure; single-UTxO thresholds at magnitudes from units to 2^45 with near misses 1..10 above the best candidate; UTxOs holding a policy-less Named asset, which are no collateral); the bound set is checked for soundness against every stated constraint and, when the candidate set has <= 50 members and contains a covering UTxO / total, for completeness. The store's event log shows which narrowing and fetch paths ran. Held = no unsound binding and no missed match.",
          "the in-memory store implements the UtxoStore contract; min_amount entries are non-negative; multi-reference queries are checked for soundness only; default (vector) selector build",
          "DESIGN.md section 3 C03"),
  "C04": ("exploration", "runtime monitor: pairwise-disjointness check of per-block selections after inputs::resolve + duplicate / count check on the raw body input list after resolve_tx",
@@ -23,15 +23,15 @@ CLAIMED = {
          "block names are distinct after lower-casing; collateral may overlap a regular input",
          "DESIGN.md section 3 C04"),
  "C05": ("exploration", "runtime monitor: fee-equation oracle on decoded bytes + per-round event log from a compiler wrapper (fee applied, payload length, fee reported)",
-         "The real resolve_tx is run on fee-dependent templates over a protocol-parameter grid with UTxO amounts placed around CBOR width boundaries of the change and the fee; decoded body fee = reported fee = a*len+b+margin, the change and the input threshold must have used that same fee. The round log classifies a failure (cut at the round limit vs returned early). Held except for the listed known finding (oscillation cut at the round limit).",
-         "Err results are out of scope; single-UTxO stores",
+         "The real resolve_tx is run on fee-dependent templates over a protocol-parameter grid with UTxO amounts placed around CBOR width boundaries of the change and the fee, and on a multi-UTxO input with a fee-dependent threshold against wallets of 2..12 small UTxOs (the real fee forces the selection to grow, which makes the transaction larger again); decoded body fee = reported fee = a*len+b+margin, the change and the input threshold must have used that same fee. The round log classifies a failure (cut at the round limit vs returned early). Held except for the listed known finding (oscillation cut at the round limit).",
+         "Err results are out of scope; single-UTxO stores in the 'fees' phase, wallets of small UTxOs in the 'multi' phase",
          "DESIGN.md section 3 C05"),
  "C06": ("exploration", "runtime monitor: independent structural walk over the serialised IR (ciborium Value of the Serialize derive) compared with find_params / find_queries before and after each application stage; missing-argument probe through resolve_tx",
-         "For lowered generated programs, the examples and random IR trees with a parameter / query / fees node in every expression position, the names found by the walk must equal the reported ones; after apply_args / apply_fees / apply_inputs of everything reported no unresolved node of that kind may remain, after compiler ops + reduce none at all and is_constant must agree; resolve_tx with one reported argument removed must return MissingTxArg naming it. The evidence lists the (kind, position) pairs reached. Held on every IR.",
+         "For lowered generated programs, the examples and random IR trees with a parameter / query / fees node in every expression position, the names found by the walk must equal the reported ones; after apply_args / apply_fees / apply_inputs of everything reported no unresolved node of that kind may remain, after compiler ops + reduce none at all and is_constant must agree; resolve_tx with one reported argument removed (half of the time with its value present under a key differing in letter case only) must return MissingTxArg naming it; through the Workspace facade the arguments arrive in 2..3 apply_args batches, after which no tx may still report a supplied parameter. The evidence lists the (kind, position) pairs reached. Held on every IR.",
          "the walk sees exactly what Serialize sees; nodes under an applied Param::Set and queries nested in a query's own field are outside the language and not generated",
          "DESIGN.md section 3 C06"),
  "C07": ("exploration", "runtime monitor: exhaustive schedule enumeration per template (24 stage orders x 32 reduce placements x arguments at once / in two instalments with a reduction in between) with canonical-IR and decoded-transaction equality oracle and idempotence check after every reduce",
-         "For each generated template (every third one built from asset atoms in which exactly one of policy / name / amount is a parameter) and world all admissible schedules of {args, inputs, fees, compiler ops} with any subset of interleaved reductions are executed on the real Apply / Node / reduce API; the canonical fully reduced IR and the independently decoded compiled transaction must be the same for all of them, and reduce must be idempotent wherever it is applied. Schedules are exhaustive per template; templates are sampled. Held = one outcome per template.",
+         "For each generated template (every third one built from asset atoms in which exactly one of policy / name / amount is a parameter) and world all admissible schedules of {args, inputs, fees, compiler ops} with any subset of interleaved reductions are executed on the real Apply / Node / reduce API; the canonical fully reduced IR and the independently decoded compiled transaction must be the same for all of them, and reduce must be idempotent wherever it is applied; a second phase feeds random typed, evaluable IR expressions (parameter keys and indices of lists / maps / tuples, parameter policies / names / amounts of assets) their arguments in ten ways, incl. decoy keys that differ from the parameter names in letter case only. Schedules are exhaustive per template; templates are sampled. Held = one outcome per template.",
          "admissibility is defined on stage dependencies known from the generator (compiler ops after args when a built-in reads a parameter); a fresh compiler per schedule",
          "DESIGN.md section 3 C07"),
  "C08": ("exploration", "runtime monitor: redeemer-attachment oracle (ledger-order ranks computed by the reference semantics) vs the independently decoded witness set",
@@ -43,7 +43,7 @@ CLAIMED = {
          "the harness' Plutus-Data reader is self-tested on hand-written vectors for tags 121/127/1280/1400/102 and bignums; an 'arithmetic overflow' error for values beyond i128 is the accepted outcome",
          "DESIGN.md section 3 C09"),
  "C10": ("exploration", "runtime monitor: pallas decode acceptance + own Blake2b-256 over raw byte ranges (body, auxiliary data, script integrity) + structural scan of the independent CBOR view + compile-twice and cross-process byte equality",
-         "Constant templates from generated programs are compiled and the bytes inspected: standard decoder accepts; reported hash = digest of raw body bytes; aux-data and script-data hashes present exactly when metadata / redeemers are and equal to digests of what the payload carries; no duplicate/empty/zero entries; network id; identical bytes for same instance, fresh instance and three fresh processes. Held = all oracles satisfied on every compiled template.",
+         "Constant templates from generated programs are compiled and the bytes inspected: standard decoder accepts; reported hash = digest of raw body bytes; aux-data and script-data hashes present exactly when metadata / redeemers are and equal to digests of what the payload carries; no duplicate/empty/zero entries; network id; identical bytes for same instance, fresh instance, an instance that just compiled the previous case's template or a sibling running another Plutus language, and three fresh processes; cost models differ from case to case so that process-wide state shows in the script-data hash. Held = all oracles satisfied on every compiled template.",
          "script integrity computed per the Alonzo rule with the cost models handed to the compiler; ledger validity beyond these structural rules (min-UTxO, script execution) is not modelled",
          "DESIGN.md section 3 C10"),
  "C11": ("exploration", "runtime monitor: round-trip oracle on two independent views (canonicalised Serialize output and a field-by-field structural view) over random IR trees and lowered programs; hostile-bytes totality monitor with panic hook, signal and watchdog observers, nested payloads decoded on a 2 MiB thread and by an unoptimised stack-probe binary; Miri cross-run in the thorough tier",
@@ -59,7 +59,7 @@ CLAIMED = {
          "only the implication is judged; the cause labels reference-cycle / local-chain>=9 come from the harness' own inspection of the mutant",
          "DESIGN.md section 3 C13"),
  "C14": ("exploration", "runtime monitor: totality oracle (panic hook with in-repo frame extraction, worker signal exits, per-case watchdog) over every public back-end entry point, checked (overflow-checks + debug-assertions) and release profiles",
-         "Lowered generator templates with type-correct but hostile arguments, stores and protocol parameters, and random well-formed IR trees a client could send (incl. built-ins over constant operands of every near-miss shape: asset lists whose amount / policy / name is a constant of the wrong kind, duplicate classes that overflow when merged, extreme integers), are pushed through find_params, find_queries, is_constant, apply_args, apply_fees, Node::apply(compiler), reduce, apply_inputs, compile, inputs::resolve and resolve_tx in worker subprocesses; every call must return Ok or Err. Held = no panic, abort or reproducible overrun on any driven call.",
+         "Lowered generator templates with type-correct but hostile arguments, stores and protocol parameters, and random well-formed IR trees a client could send (incl. built-ins over constant operands of every near-miss shape: asset lists whose amount / policy / name is a constant of the wrong kind, duplicate classes that overflow when merged, extreme integers), and one-input queries against wallets with 0..120 full and 0..60 partial matches (both sides of the selection window) are pushed through find_params, find_queries, is_constant, apply_args, apply_fees, Node::apply(compiler), reduce, apply_inputs, compile, inputs::resolve and resolve_tx in worker subprocesses; every call must return Ok or Err. Held = no panic, abort or reproducible overrun on any driven call.",
          "arguments are type-correct in the property's sense; stores follow the trait contract and hold amounts below 2^80 in magnitude; nothing is asserted about which of Ok/Err comes back",
          "DESIGN.md section 3 C14"),
  "C19": ("exploration", "runtime monitor: span-inside-text invariant checked on every diagnostic produced by erroneous inputs, plus rendering through miette's graphical handler; Miri cross-run in the thorough tier",
@@ -75,7 +75,7 @@ CLAIMED = {
          "values are sampled (i128 boundary set, byte strings up to 100 bytes, all Shelley address kinds); a key is never placed in both args and env; transaction-id length is not policed because the statement does not",
          "DESIGN.md section 3 C16"),
  "C17": ("exploration", "runtime monitor: the real tx3c binary is run per generated program; the emitted TII is read back and confronted with find_params of the decoded embedded IR (name-agreement oracle), with lower() computed in-process (canonical equality), and with a request assembled from exactly the declared keys (closure oracle through parse_resolve_request + apply_args)",
-         "Generated programs with parameters, env vars and parties re-spelled in lower / UPPER / mixed case, unused declarations, policies of every form, optional profile flags and dotfiles, and (collision phase) two declared names made equal up to case are compiled by the real CLI; for every tx the embedded envelope must decode to the lowered IR, every key the IR requires must be declared under the identical spelling in exactly one section with no other declared key equal to it up to case, and a client supplying precisely the declared keys (typed by the declared schemas) must get every required key through parse_resolve_request with its value and close all value parameters. Held = no spelling / undeclared / collision / closure disagreement on any emitted file.",
+         "Generated programs with parameters, env vars and parties re-spelled in lower / UPPER / mixed case, unused declarations, policies of every form, optional profile flags and dotfiles, and (collision phase) two declared names made equal up to case are compiled by the real CLI; for every tx the embedded envelope must decode to the lowered IR, every key the IR requires must be declared under the identical spelling in exactly one section with no other declared key equal to it up to case, and a client supplying precisely the declared keys (typed by the declared schemas) must get every required key through parse_resolve_request with its value and close all value parameters; hand-shaped programs add parameters typed by records / variants / alias chains / lists and maps of them (every key the embedded IR requires must be declared); any two declarations visible to one tx that share a key up to letter case (incl. an env var plus two parameters spelled alike, and two txs of one name; a parameter shadowing an identically spelled env var excepted) must be refused by the analyzer. Held = no spelling / undeclared / collision / closure disagreement on any emitted file.",
          "a program accepted in-process but refused by tx3c is inconclusive (no file to judge); parameters of record / list / map type are not supplied; a parameter shadowing an env var of the same spelling is judged by the closure oracle only",
          "DESIGN.md section 3 C17"),
  "C18": ("exploration", "runtime monitor: offline checker over recorded histories of artifacts - the set of distinct byte strings per (source, tx) over 20 in-process repetitions, 3 fresh processes (new hash seeds), 3 runs of the real tx3c binary and a random history of Workspace facade operations must be a singleton; differences are located by a parallel walk of the two CBOR / JSON documents",
